@@ -67,8 +67,12 @@ type gsTr struct {
 	asArg  map[*ast.SliceExpr]bool // slice expressions that are call arguments, in the current function
 }
 
+// gsDie stops the translator; it is `die` (message on stderr, exit status 2) in the command and is
+// replaced by a panic with a sentinel value in gosm3_test.go.
+var gsDie = die
+
 func (t *gsTr) fail(pos token.Pos, format string, a ...interface{}) {
-	die("%s: %s", t.fset.Position(pos), fmt.Sprintf(format, a...))
+	gsDie("%s: %s", t.fset.Position(pos), fmt.Sprintf(format, a...))
 }
 
 var leanKeywords = map[string]bool{"in": true, "at": true, "from": true, "end": true, "fun": true, "do": true, "then": true,
@@ -1376,23 +1380,28 @@ func (t *gsTr) isPure(fd *ast.FuncDecl) bool {
 }
 
 func genGoSM3() {
+	writeIfChanged("SM3Code.lean", gsTranslate(repo))
+}
+
+// gsTranslate is the translator proper: the text of Gen/SM3Code.lean for the sm3/sm3.go below repoDir
+func gsTranslate(repoDir string) []byte {
 	rel := "sm3/sm3.go"
-	path := filepath.Join(repo, rel)
+	path := filepath.Join(repoDir, rel)
 	fset := token.NewFileSet()
 	f, err := parser.ParseFile(fset, path, nil, parser.ParseComments)
 	if err != nil {
-		die("%v", err)
+		gsDie("%v", err)
 	}
 	srcBytes, err := os.ReadFile(path)
 	if err != nil {
-		die("%v", err)
+		gsDie("%v", err)
 	}
 	info := &types.Info{Types: map[ast.Expr]types.TypeAndValue{}, Defs: map[*ast.Ident]types.Object{},
 		Uses: map[*ast.Ident]types.Object{}, Selections: map[*ast.SelectorExpr]*types.Selection{}}
 	conf := types.Config{Importer: importer.ForCompiler(fset, "source", nil)}
 	pkg, err := conf.Check("sm3", fset, []*ast.File{f}, info)
 	if err != nil {
-		die("type-check %s: %v", rel, err)
+		gsDie("type-check %s: %v", rel, err)
 	}
 	t := &gsTr{fset: fset, info: info, pkg: pkg, src: strings.Split(string(srcBytes), "\n"), fns: map[types.Object]*gsFn{}}
 
@@ -1419,7 +1428,7 @@ func genGoSM3() {
 		}
 	}
 	if t.strct == nil {
-		die("%s: no struct type", rel)
+		gsDie("%s: no struct type", rel)
 	}
 	sname := t.strct.Obj().Name()
 	st := t.strct.Underlying().(*types.Struct)
@@ -1562,9 +1571,9 @@ func genGoSM3() {
 	}
 	fmt.Fprintf(&t.sb, "end SMGo.Gen.SM3Code\n")
 	if len(t.order) < 8 {
-		die("%s: only %d functions translated", rel, len(t.order))
+		gsDie("%s: only %d functions translated", rel, len(t.order))
 	}
-	writeIfChanged("SM3Code.lean", []byte(t.sb.String()))
+	return []byte(t.sb.String())
 }
 
 func init() {
